@@ -6,16 +6,17 @@
   c18.af.taint   <routine> <param>    → ok <names that may share the parameter's buffer> <in-place statements reaching it>
   c18.af.run     <routine> <param> <i:pick,i:pick,…>   → ok <number of writes the execution performed on the parameter's buffer>
   c18.af.nroutines                    → ok <n>
+  c18.am.<same>                       the same opcodes over the table of unyt/array.py (routine = `unyt_array.in_units` ...)
 -/
 import UnytModel.DriverBase
 import UnytModel.AliasFlow
 import UnytModel.Generated.C18Alias
+import UnytModel.Generated.C18AliasArray
 
 namespace Unyt
 open Unyt.AliasFlow
 
-def stepC18Alias (fields : List String) : Option String :=
-  let t := Generated.C18Alias.table
+def stepAliasTable (t : Table) (fields : List String) : Option String :=
   match fields with
   | ["c18.af.nroutines"] => some s!"ok\t{t.length}"
   | ["c18.af.params", f] =>
@@ -46,9 +47,14 @@ def stepC18Alias (fields : List String) : Option String :=
     | none => some "none"
   | _ => none
 
+/-- `c18.af.*`: unyt/_array_functions.py; `c18.am.*` (same opcodes): unyt/array.py (methods as `Class.method`) -/
 def opsC18Alias : Handler := fun st fields =>
   match fields with
-  | op :: _ => if op.startsWith "c18.af." then (stepC18Alias fields).map fun s => (st, s) else none
+  | op :: rest =>
+    if op.startsWith "c18.af." then (stepAliasTable Generated.C18Alias.table fields).map fun s => (st, s)
+    else if op.startsWith "c18.am." then
+      (stepAliasTable Generated.C18AliasArray.table (("c18.af." ++ (op.drop 7).toString) :: rest)).map fun s => (st, s)
+    else none
   | _ => none
 
 end Unyt
